@@ -213,6 +213,6 @@ def main():
         json.dump(m, f, indent=1)
         f.write("\n")
 
-HOOK_COMMITS = ["6e4993e", "bb5031b"]
+HOOK_COMMITS = ["6e4993e", "bb5031b", "a67f951"]
 if __name__ == "__main__":
     main()
